@@ -280,9 +280,11 @@ Proof.
   apply sc_render_decl_bal. rewrite forallb_forall in Hok. exact (Hok d Hd).
 Qed.
 
-(* every admissible package name: with a dot both blocks are opened and closed, without a dot neither an opener nor
-   a closer is printed (scala.rs end_package / end_package_object after the /repo fix of C10-scala-package-brace);
-   the empty package is begin_file's error, so no text exists for it *)
+(* every admissible package name: both blocks are opened (named by the last segment of the package name, the whole
+   name when it has no dot) and closed (scala.rs begin_package(_object) / end_package(_object) after the /repo fix
+   of C10-scala-toplevel-alias; before it a dotless name opened and closed nothing, before the fix of
+   C10-scala-package-brace it closed what it had not opened); the empty package is begin_file's error, so no text
+   exists for it *)
 Theorem sc_generate_balanced pd text : dom_C10 CSC pd = true ->
   sc_generate uc cfg pd = Ok text -> c10_balanced c10_lex_sc text = true.
 Proof.
@@ -304,40 +306,28 @@ Proof.
     pose proof (tok_bal c10_lex_sc parent (dotted_tok _ Hpar)) as Hpb. intros st. walk. reflexivity. }
   assert (Bu : bal c10_lex_sc (if sc_unsigned_integer_used pd then sc_render_decl sc_unsigned_aliases else [])).
   { destruct (sc_unsigned_integer_used pd); [apply sc_render_decl_bal; reflexivity|apply tr_nil]. }
-  destruct (sc_rsplit_once sc_ch_dot (sc_package cfg)) as [[parent last]|] eqn:Er.
-  - (* a package with a dot: both blocks are opened and closed *)
-    pose proof (rsplit_once_some_contains _ _ _ _ Er) as Hdot.
-    pose proof (rsplit_once_some _ _ _ _ Er) as Es. pose proof Hpack as Hpack'. unfold c10_dotted_ok in Hpack'.
-    rewrite Es, forallb_app in Hpack'. apply andb_true_iff in Hpack' as [_ Hlast]. cbn [forallb] in Hlast. apply andb_true_iff in Hlast as [_ Hlast].
-    pose proof (tok_bal c10_lex_sc last (dotted_tok _ Hlast)) as Hlb.
-    assert (Bobj : bal c10_lex_sc pobj).
-    { destruct (sc_unsigned_integer_used pd || negb (sc_is_empty (p_aliases pd))); [|injection Hpobj as <-; apply tr_nil].
-      apply bind_ok in Hpobj as (aliases & Hal' & Hpobj). injection Hpobj as <-.
-      pose proof (sc_items_bal _ _ Hal Hal') as Ba.
-      unfold sc_begin_package_object, sc_end_package_object. rewrite Er, Hdot. intros st.
-      set (U := if sc_unsigned_integer_used pd then _ else _) in *. walk. reflexivity. }
-    assert (Bpkg : bal c10_lex_sc pkg).
-    { destruct (negb (sc_is_empty (p_structs pd)) || negb (sc_is_empty (p_enums pd))); [|injection Hpkg as <-; apply tr_nil].
-      apply bind_ok in Hpkg as (structs & Hs' & Hpkg). apply bind_ok in Hpkg as (enums & He' & Hpkg). injection Hpkg as <-.
-      pose proof (sc_items_bal _ _ Hst Hs') as Bs.
-      pose proof (sc_items_bal _ _ Hen He') as Be.
-      unfold sc_begin_package, sc_end_package. rewrite Er, Hdot. intros st. walk. reflexivity. }
-    apply bal_balanced. eapply tr_app; [exact Bhead|]. eapply tr_app; [exact Bobj|exact Bpkg].
-  - (* no dot: neither block has an opener or a closer, the declarations stand at top level *)
-    pose proof (rsplit_once_none _ _ Er) as Hdot.
-    assert (Bobj : bal c10_lex_sc pobj).
-    { destruct (sc_unsigned_integer_used pd || negb (sc_is_empty (p_aliases pd))); [|injection Hpobj as <-; apply tr_nil].
-      apply bind_ok in Hpobj as (aliases & Hal' & Hpobj). injection Hpobj as <-.
-      pose proof (sc_items_bal _ _ Hal Hal') as Ba.
-      unfold sc_begin_package_object, sc_end_package_object. rewrite Er, Hdot. cbn [app]. rewrite app_nil_r.
-      eapply tr_app; [exact Bu|exact Ba]. }
-    assert (Bpkg : bal c10_lex_sc pkg).
-    { destruct (negb (sc_is_empty (p_structs pd)) || negb (sc_is_empty (p_enums pd))); [|injection Hpkg as <-; apply tr_nil].
-      apply bind_ok in Hpkg as (structs & Hs' & Hpkg). apply bind_ok in Hpkg as (enums & He' & Hpkg). injection Hpkg as <-.
-      pose proof (sc_items_bal _ _ Hst Hs') as Bs.
-      pose proof (sc_items_bal _ _ Hen He') as Be.
-      unfold sc_begin_package, sc_end_package. rewrite Er, Hdot. cbn [app]. rewrite app_nil_r.
-      eapply tr_app; [exact Bs|exact Be]. }
-    apply bal_balanced. eapply tr_app; [exact Bhead|]. eapply tr_app; [exact Bobj|exact Bpkg].
+  (* the last segment (the whole name when it has no dot) is a run of plain token characters *)
+  assert (Hlb : bal c10_lex_sc (sc_package_last_segment cfg)).
+  { unfold sc_package_last_segment. destruct (sc_rsplit_once sc_ch_dot (sc_package cfg)) as [[parent last]|] eqn:Er.
+    - pose proof (rsplit_once_some _ _ _ _ Er) as Es. pose proof Hpack as Hpack'. unfold c10_dotted_ok in Hpack'.
+      rewrite Es, forallb_app in Hpack'. apply andb_true_iff in Hpack' as [_ Hlast]. cbn [forallb] in Hlast. apply andb_true_iff in Hlast as [_ Hlast].
+      exact (tok_bal c10_lex_sc last (dotted_tok _ Hlast)).
+    - exact (tok_bal c10_lex_sc _ (dotted_tok _ Hpack)). }
+  (* both blocks are opened and closed, whatever the package name (scala.rs after the /repo fix of C10-scala-toplevel-alias) *)
+  assert (Bobj : bal c10_lex_sc pobj).
+  { destruct (sc_unsigned_integer_used pd || negb (sc_is_empty (p_aliases pd))); [|injection Hpobj as <-; apply tr_nil].
+    apply bind_ok in Hpobj as (aliases & Hal' & Hpobj). injection Hpobj as <-.
+    pose proof (sc_items_bal _ _ Hal Hal') as Ba.
+    unfold sc_begin_package_object, sc_end_package_object. cbv zeta. intros st.
+    set (L := sc_package_last_segment cfg) in *.
+    set (U := if sc_unsigned_integer_used pd then _ else _) in *. walk. reflexivity. }
+  assert (Bpkg : bal c10_lex_sc pkg).
+  { destruct (negb (sc_is_empty (p_structs pd)) || negb (sc_is_empty (p_enums pd))); [|injection Hpkg as <-; apply tr_nil].
+    apply bind_ok in Hpkg as (structs & Hs' & Hpkg). apply bind_ok in Hpkg as (enums & He' & Hpkg). injection Hpkg as <-.
+    pose proof (sc_items_bal _ _ Hst Hs') as Bs.
+    pose proof (sc_items_bal _ _ Hen He') as Be.
+    unfold sc_begin_package, sc_end_package. cbv zeta. intros st.
+    set (L := sc_package_last_segment cfg) in *. walk. reflexivity. }
+  apply bal_balanced. eapply tr_app; [exact Bhead|]. eapply tr_app; [exact Bobj|exact Bpkg].
 Qed.
 End SCDecide.
